@@ -4,6 +4,7 @@ package main
 
 import (
 	"fmt"
+	"github.com/metal-toolbox/audito-maldito/processors/auditd"
 	"strings"
 
 	"github.com/metal-toolbox/audito-maldito/internal/verifharness/hutil"
@@ -239,7 +240,8 @@ var l1Modes = []string{"clean", "badline", "badline", "faults", "faults", "after
 
 func genL1(r *hutil.Rand, i int) Case {
 	mode := l1Modes[i%len(l1Modes)]
-	c := Case{Level: 1, Mode: mode, MaxSz: 1000, TimeoutMs: 2000, Budget: -1}
+	// the reassembler is built with the daemon's own in-flight limit (smallmax overrides it below)
+	c := Case{Level: 1, Mode: mode, MaxSz: auditd.VerifC15MaxEventsInFlight, TimeoutMs: 2000, Budget: -1}
 	g := &genState{r: r, seq: uint32(30000 + r.Intn(100000)), pid: 2000 + r.Intn(20000)}
 	g.gap = mode == "gaps" || r.Chance(1, 5)
 	g.shuf = mode == "gaps" || r.Chance(1, 6)
